@@ -346,3 +346,163 @@ def checks(tier):
                       "scheduling point",
                outside="3 actors; more than 2 preemptions; power loss (C09)", time_budget=2400, tiers=q),
     ]
+
+
+# ---------------------------------------------------------------------------------------------
+# (d) every routine that writes through the lock protocol, with a fault at a symbolic system call:
+#     the protected files hold their complete old or complete new content, the lock is released, a retry works
+_b07d = checks
+
+
+def _extra_ops():
+    from dulwich.objects import Blob
+
+    def op_locked_ref_set(r, ids):
+        from dulwich.refs import locked_ref
+        with locked_ref(r.refs, b"refs/heads/side") as lr:
+            lr.set(ids[1])
+        return {}
+
+    def op_locked_ref_readonly(r, ids):
+        from dulwich.refs import locked_ref
+        with locked_ref(r.refs, b"refs/heads/side") as lr:
+            lr.get()
+        return {}
+
+    def op_add_packed_refs(r, ids):
+        r.refs.add_packed_refs({b"refs/tags/v1": ids[1], b"refs/heads/side": None})
+        return {}
+
+    def op_commit_graph(r, ids):
+        r.object_store.write_commit_graph()
+        return {}
+
+    def op_shallow(r, ids):
+        r.update_shallow([ids[1]], [])
+        return {}
+
+    def op_alternates(r, ids):
+        r.object_store.add_alternate_path("/nonexistent/alt/objects")
+        return {}
+
+    def op_midx(r, ids):
+        if not list(r.object_store.packs):
+            r.object_store.pack_loose_objects()
+        r.object_store.write_midx()
+        return {}
+    return [op_locked_ref_set, op_locked_ref_readonly, op_add_packed_refs, op_commit_graph, op_shallow, op_alternates, op_midx]
+
+
+def _protected(d):
+    """{relative path: bytes} of every file of the control directory that is written through the lock protocol or must
+    be complete when visible (loose objects and packs are checked by hashing instead; logs are append-only)"""
+    out = {}
+    g = os.path.join(d, ".git")
+    for dp, dn, fn in os.walk(g):
+        rel = os.path.relpath(dp, g)
+        if rel.startswith("logs") or rel.startswith("hooks") or rel.startswith(os.path.join("objects", "pack")):
+            continue
+        if rel.startswith("objects") and rel not in ("objects", os.path.join("objects", "info")):
+            continue
+        for f in fn:
+            with open(os.path.join(dp, f), "rb") as fh:
+                out[os.path.normpath(os.path.join(rel, f))] = fh.read()
+    return out
+
+
+def _objects_sound(d):
+    """every loose object and every installed pack that is visible is complete (hashes / checks)"""
+    from dulwich.repo import Repo
+    bad = []
+    r = Repo(d)
+    try:
+        for sha in r.object_store:
+            try:
+                if r.object_store[sha].id != sha:
+                    bad.append(sha)
+            except Exception as e:
+                bad.append((sha, repr(e)))
+    finally:
+        r.close()
+    return bad
+
+
+def h_callers_fault(eng, opk=0, packed=False, interrupt=False, kmax=40):
+    from dulwich.repo import Repo
+    from dulwich.file import FileLocked
+    from vf.interpose import Interposer, scratch, fault
+    import vf.props.C09 as C9
+    ops = C9.OPS[:10] + _extra_ops()
+    op = ops[opk]
+    k = eng.choice("fault_at", kmax)
+    d, d2 = scratch("c07d"), scratch("c07e")
+    try:
+        r, ids = C9._mkrepo(d, packed)
+        r2, ids2 = C9._mkrepo(d2, packed)
+        op(r2, ids2)                                   # fault-free twin: the complete new content
+        r2.close()
+        old, new = _protected(d), _protected(d2)
+        if op.__name__ == "op_locked_ref_readonly":
+            eng.prove(new == old, f"taking and releasing a ref lock without writing leaves every file unchanged: "
+                                  f"{[p_ for p_ in set(old) | set(new) if old.get(p_) != new.get(p_)]}")
+        hit = []
+
+        def hook(i, name, path):
+            if i == k:
+                hit.append((name, os.fsdecode(path) if isinstance(path, (bytes, str)) else str(path)))
+                raise (KeyboardInterrupt() if interrupt else fault(name))
+        err = None
+        with Interposer(d, hook):
+            try:
+                op(r, ids)
+            except (Exception, KeyboardInterrupt) as e:
+                err = e
+        eng.assume(bool(hit))
+        r.close()
+        tag = f"[{op.__name__} {'packed' if packed else 'loose'} repo; {'KeyboardInterrupt' if interrupt else 'EIO'} in call {k}: {hit[0][0]} {hit[0][1][len(d):]}]"
+        cur = _protected(d)
+        for path in sorted(set(old) | set(cur)):
+            if path.endswith(".lock"):
+                continue
+            c = cur.get(path)
+            eng.prove(c == old.get(path) or c == new.get(path),
+                      f"{tag} {path} holds its complete old or complete new content (now {None if c is None else c[:60]!r}, "
+                      f"old {None if old.get(path) is None else old.get(path)[:40]!r})")
+        locks = [p for p in cur if p.endswith(".lock")]
+        lock_remove_failed = hit[0][0] in ("remove", "unlink") and hit[0][1].endswith(".lock")
+        if not lock_remove_failed:
+            eng.prove(not locks, f"{tag} no lock file is left behind: {locks}")
+        eng.prove(not _objects_sound(d), f"{tag} every visible object is complete: {_objects_sound(d)[:2]}")
+        if not locks:
+            r = Repo(d)
+            try:
+                op(r, ids)
+                retry = None
+            except Exception as e:
+                retry = e
+            finally:
+                r.close()
+            eng.prove(not isinstance(retry, FileLocked), f"{tag} the operation can be retried (got {retry!r})")
+    finally:
+        shutil.rmtree(d, ignore_errors=True)
+        shutil.rmtree(d2, ignore_errors=True)
+
+
+def checks(tier):
+    q = ("quick", "thorough")
+    nops = 10 + 7
+    return _b07d(tier) + [
+        KCheck("C07d.callers_fault", h_callers_fault,
+               parts=[{"opk": o, "packed": p, "interrupt": i} for o in range(nops) for p in (False, True) for i in (False, True)],
+               encoded=["dulwich.index.Index.write", "dulwich.config.ConfigFile.write_to_path", "dulwich.refs.DiskRefsContainer.set_if_equals/"
+                        "add_if_new/remove_if_equals/set_symbolic_ref/pack_refs/add_packed_refs", "dulwich.refs.locked_ref",
+                        "dulwich.object_store.DiskObjectStore.add_object/add_objects/write_commit_graph/write_midx/add_alternate_path",
+                        "dulwich.repo.Repo.update_shallow", "dulwich.worktree.WorkTree.commit", "dulwich.file._GitFile"],
+               bounds="17 operations that write through the lock protocol (index, config, loose and packed refs, symbolic ref, "
+                      "locked_ref with and without a write, loose object, pack + index, commit, commit-graph, multi-pack-index, "
+                      "shallow, alternates) from a loose and a packed repository; one of the first 40 file-system calls of the "
+                      "operation (symbolic index) raises EIO or KeyboardInterrupt; protected files compared byte-wise with the "
+                      "old content and with a fault-free twin run",
+               outside="two faults in one operation; faults in read calls; reflogs (append-only, not lock-protected)",
+               time_budget=2400, tiers=q),
+    ]
